@@ -17,7 +17,7 @@ TARGETS = [
 	(K + 'c_index_to_kmer',), (K + 'index_to_kmer',),
 	(K + 'c_revcomp',), (K + 'revcomp',),
 	# the names under which the library itself uses the reverse complement (re-exports are followed to their definition on every run)
-	('gambit.seq.revcomp',), ('gambit.kmers.revcomp',),
+	('gambit.seq.revcomp',), ('gambit.kmers.revcomp',), ('gambit.kmers.index_to_kmer',),
 ] + [('gambit.seq.seq_to_bytes', t, {'seq': ts}) for t, ts in py_seq.SEQ_INSTANCES.items()] + [
 	('gambit.seq.validate_dna_seq_bytes', None, {'seq': py_seq.SEQ_INSTANCES['bytes']}),
 ] + [('gambit.kmers.kmer_to_index', t, {'kmer': ts}) for t, ts in py_seq.SEQ_INSTANCES.items()] + [
@@ -42,6 +42,7 @@ def register(reg):
 	# whatever gambit.seq.revcomp / gambit.kmers.revcomp are bound to must satisfy the contract of the reverse complement
 	for alias in ('gambit.seq.revcomp', 'gambit.kmers.revcomp'):
 		reg.contracts[alias] = reg.contracts[K + 'revcomp']
+	reg.contracts['gambit.kmers.index_to_kmer'] = reg.contracts[K + 'index_to_kmer']
 
 
 # ---- lemmas over the contracts ------------------------------------------------------------------------
